@@ -483,7 +483,7 @@ func c06LoadOutcome(src string) string {
 	select {
 	case out := <-done:
 		return out
-	case <-time.After(20 * time.Second):
+	case <-time.After(120 * time.Second):
 		return "HANG"
 	}
 }
